@@ -124,6 +124,7 @@ package channel
 //@   ensures #ri RI(c.Q)
 //@   ensures #nil-on-error result.1 != nil ==> len(result.0) == 0
 //@   ensures #returns-exactly-what-it-consumed result.1 == nil ==> rd == old(rd) ++ result.0
+//@   ensures [C01 C12] #nothing-to-wait-for-without-input len(b) == 0 ==> result.1 == nil && len(result.0) == 0 && rd == old(rd)
 //@   ensures [C01 C12] #success-means-echo-seen result.1 == nil ==> contains(window(result.0, (2 * len(b) > c.PromptSearchDepth ? 2 * len(b) : c.PromptSearchDepth)), b)
 //@   loop 1 invariant RI(c.Q) && rd == old(rd) ++ rb
 
